@@ -517,3 +517,69 @@ Proof.
     + specialize (HP 1%nat). replace (f + 1)%nat with (S f) in HP by lia. exact HP.
 Qed.
 Print Assumptions inc_pre.
+
+(* ------------------------------------------------------------------ *)
+(* [run_inc_app_stmt] does hold for states whose jump targets lie inside the pushed program *)
+
+Lemma exec_loop_done_exact f : forall code s pc len s' r,
+  targets_ok len s -> pc <= len -> exec_loop f code s pc len = (FDone s', r) ->
+  targets_ok len s' /\
+  exists u, f = (u + r)%nat /\
+    (forall d, exec_loop (u + S d) code s pc len = (FDone s', S d)) /\
+    exec_loop u code s pc len = (FFuel s' len, 0%nat).
+Proof.
+  induction f as [|f IH]; intros code s pc len s' r T Hpc H.
+  - cbn in H. discriminate H.
+  - cbn [exec_loop] in H. destruct (len <=? pc) eqn:E1.
+    { injection H as <- <-. split; [exact T|]. exists 0%nat. split; [reflexivity|]. split.
+      - intros d. cbn [Nat.add exec_loop]. rewrite E1. reflexivity.
+      - apply N.leb_le in E1. assert (pc = len) by lia. subst pc. reflexivity. }
+    destruct (nth_error code (N.to_nat pc)) as [c|] eqn:En; [|discriminate H].
+    destruct (execute_one c pc s) as [pc' s1|k s1|e s1] eqn:Ee; try discriminate H.
+    pose proof E1 as E1'. apply N.leb_gt in E1'.
+    destruct (step_facts _ _ _ _ _ _ Ee T E1') as (T1 & Hpc').
+    assert (Hle : pc' <= len) by lia.
+    destruct (IH _ _ _ _ _ _ T1 Hle H) as (T' & u & Hu & Hd & H0).
+    split; [exact T'|]. exists (S u). split; [lia|]. split.
+    + intros d. change (S u + S d)%nat with (S (u + S d)). cbn [exec_loop]. rewrite E1, En, Ee. apply Hd.
+    + cbn [exec_loop]. rewrite E1, En, Ee. exact H0.
+Qed.
+
+Lemma run_inc_used_ok cb rb a : forall f1 done s s1, targets_ok (N.of_nat (length done)) s ->
+  run_inc f1 done a s = FDone s1 ->
+  exists u, forall g, run_inc (u + g) done (a ++ cb :: rb) s = run_inc g (done ++ a) (cb :: rb) s1.
+Proof.
+  induction a as [|c r IH]; intros f1 done s s1 T H.
+  - cbn in H. injection H as <-. exists 0%nat. intros g. rewrite app_nil_r. reflexivity.
+  - cbn [run_inc] in H.
+    destruct (exec_loop f1 (done ++ [c]) s (N.of_nat (length done)) (N.of_nat (length done) + 1)) as [x f'] eqn:E.
+    destruct x as [s'|k s'|e s'|t p|s']; try discriminate H.
+    assert (T0 : targets_ok (N.of_nat (length done) + 1) s).
+    { apply (OptTerm.targets_ok_weaken (N.of_nat (length done))); [lia | exact T]. }
+    assert (Hpc : N.of_nat (length done) <= N.of_nat (length done) + 1) by lia.
+    destruct (exec_loop_done_exact _ _ _ _ _ _ _ T0 Hpc E) as (T' & u1 & Hu1 & Hd & H0).
+    rewrite <- (OptTerm.len_snoc done c) in T'.
+    destruct (IH _ _ _ _ T' H) as (u2 & Hg).
+    exists (u1 + u2)%nat. intros g. cbn [app run_inc].
+    rewrite <- Nat.add_assoc. destruct (u2 + g)%nat as [|n] eqn:En.
+    + rewrite Nat.add_0_r, H0.
+      assert (u2 = 0%nat) by lia. assert (g = 0%nat) by lia. subst u2 g.
+      specialize (Hg 0%nat). rewrite <- app_assoc in Hg. cbn [app Nat.add] in Hg. Show. rewrite <- Hg.
+      rewrite <- (OptTerm.len_snoc done c). destruct r; reflexivity.
+    + rewrite Hd, <- En, Hg, <- app_assoc. reflexivity.
+Qed.
+
+Definition run_inc_app_ok_stmt := forall f1 done a b s s1, targets_ok (N.of_nat (length done)) s ->
+  run_inc f1 done a s = FDone s1 ->
+  forall f2, exists F, forall g, run_inc (F + g) done (a ++ b) s = run_inc (f2 + g) (done ++ a) b s1.
+
+Theorem run_inc_app_ok : run_inc_app_ok_stmt.
+Proof.
+  intros f1 done a b s s1 T H f2. destruct b as [|cb rb].
+  - exists f1. intros g. rewrite app_nil_r. cbn [run_inc].
+    assert (Hle : (f1 <= f1 + g)%nat) by lia.
+    pose proof (run_mono_t f1 (f1 + g)%nat done a s Hle) as Hm. rewrite H in Hm. exact Hm.
+  - destruct (run_inc_used_ok cb rb a f1 done s s1 T H) as (u & Hg).
+    exists (u + f2)%nat. intros g. rewrite <- Nat.add_assoc. apply Hg.
+Qed.
+Print Assumptions run_inc_app_ok.
